@@ -714,6 +714,7 @@ func (st *Stack) compactRange(first, last int, expiration *LogExpirationConfig) 
 
 	if !emptyTable {
 		if err := os.Rename(tmpTable, destTable); err != nil {
+			os.Remove(tmpTable)
 			return false, err
 		}
 	}
